@@ -24,7 +24,11 @@ CORR = {
     "C02": ["reenc"],
     "C04": ["reenc", "props"],
     "C05": ["reenc"],
-    "C06": ["selmatch"],
+    # selrun: the greedy compressor's choices are a run of the greedy rule under SOME tie-break
+    # (proved checker greedy_run_ok); selmatch: exact equality with the model, emitted for the
+    # Zuckerli-style compressor only (for greedy cases the exact comparison is the
+    # informational key i_selmatch=same|differs, which no verdict looks at)
+    "C06": ["selrun", "selmatch"],
 }
 
 
@@ -130,6 +134,8 @@ def run_art(cid, ctx, runs):
             dist["n<=8" if int(case.get("n", "0")) <= 8 else "n<=40" if int(case.get("n", "0")) <= 40 else "n>40"] += 1
             nrefs = int(res.get("nrefs", "0") or 0)
             dist["refs=0" if nrefs == 0 else "refs>0"] += 1
+            if "i_selmatch" in res:
+                dist["i_selmatch=" + res["i_selmatch"]] += 1
             of, cf, rf = evaluate(cid, case, impl.get(cidx, {}), res)
             if rf:
                 refused += 1
